@@ -9,10 +9,12 @@ import (
 
 // C07: concurrent and retried writes deliver each message whole, exactly once.
 
-type zzNetErr struct{ temp bool }
+// zzNetErr: a net.Error that is temporary or permanent and, independently, a timeout or not
+// (EAGAIN / EINTR / ENOBUFS are temporary without being timeouts; an expired deadline is both)
+type zzNetErr struct{ temp, timeout bool }
 
 func (e *zzNetErr) Error() string   { return "zz transport error" }
-func (e *zzNetErr) Timeout() bool   { return false }
+func (e *zzNetErr) Timeout() bool   { return e.timeout }
 func (e *zzNetErr) Temporary() bool { return e.temp }
 
 // zzFaultyWriter accepts a case-split part of each write and reports a case-split outcome.
@@ -23,6 +25,8 @@ type zzFaultyWriter struct {
 	dead     bool // a permanent error was reported
 	afterErr int  // writes attempted after a permanent error
 	streams  []uint
+	lastTemp bool // the most recent call reported a temporary error
+	timeouts bool // errors of this transport also report Timeout() (case-split once per path)
 }
 
 func (w *zzFaultyWriter) Write(p []byte) (int, error) {
@@ -53,6 +57,7 @@ func (w *zzFaultyWriter) Write(p []byte) (int, error) {
 	w.got = append(w.got, p[:wn]...)
 	w.sum += wn
 	outcome := vChoice("outcome", 3) // 0 nil, 1 temporary, 2 permanent
+	w.lastTemp = outcome == 1
 	if outcome == 0 {
 		// io.Writer contract: a short write reports an error
 		vAssume(wn == len(p))
@@ -60,9 +65,9 @@ func (w *zzFaultyWriter) Write(p []byte) (int, error) {
 	}
 	if outcome == 2 {
 		w.dead = true
-		return wn, &zzNetErr{temp: false}
+		return wn, &zzNetErr{temp: false, timeout: w.timeouts}
 	}
-	return wn, &zzNetErr{temp: true}
+	return wn, &zzNetErr{temp: true, timeout: w.timeouts}
 }
 
 type zzFaultyStreamWriter struct{ zzFaultyWriter }
@@ -97,8 +102,10 @@ func zzC07_retry() {
 	var fw *zzFaultyWriter
 	var n int64
 	var err error
+	timeouts := zzFlag("errorsAreTimeouts")
 	if zzFlag("multistream") {
 		sw := &zzFaultyStreamWriter{}
+		sw.timeouts = timeouts
 		fw = &sw.zzFaultyWriter
 		var nn int
 		nn, err = m.WriteToStreamWithRetry(sw, 3, uint(retries))
@@ -107,7 +114,7 @@ func zzC07_retry() {
 			vAssert(s == 3, "every attempt goes to the requested stream")
 		}
 	} else {
-		fw = &zzFaultyWriter{}
+		fw = &zzFaultyWriter{timeouts: timeouts}
 		n, err = m.WriteToWithRetry(fw, uint(retries))
 	}
 	vObserve("calls", uint64(fw.calls))
@@ -115,6 +122,7 @@ func zzC07_retry() {
 	vObserve("err", zzB2U(err != nil))
 	vObserveBytes("accepted", fw.got)
 	vAssert(fw.calls <= retries+1, "at most retries+1 transport calls")
+	vAssert(!(fw.lastTemp && fw.calls <= retries), "a transient error is retried while the caller's retry budget lasts (whether or not it is also a timeout)")
 	vAssert(int(n) == fw.sum, "returned count is the number of bytes the transport accepted")
 	vAssert(fw.afterErr == 0, "nothing is sent after a permanent error")
 	vAssert(len(fw.got) <= len(want), "never more than the message is sent")
